@@ -211,8 +211,24 @@ def apply_conf(g, conf):
         g.box_matrix = np.array(conf["box"][1], dtype=float)
 
 
+# first writer run of this process for each (width, decimals, velocities): a failure that depends on what
+# the process did before (state shared between GroFile objects) is replayed as [earlier run(s), failing run]
+WRITER_HISTORY = []
+_history_keys = set()
+
+
+def note_run(conf, recs):
+    if not recs:
+        return
+    key = (effective_w(conf), effective_d(conf), len(recs[0]))
+    if key not in _history_keys:
+        _history_keys.add(key)
+        WRITER_HISTORY.append((key, conf, [tuple(r) for r in recs[:2]]))
+
+
 def run_writer(path, conf, recs):
     """('file', text) or ('err', code)"""
+    note_run(conf, recs)
     g = None
     try:
         g = GroFile()(path, "w")
@@ -295,9 +311,10 @@ class SnapFile:
 
 def run_writer_snapshots(path, conf, recs):
     """Returns (ops, fine): ops = [(j, text)] file after the first j model operations
-    (j = 0..len(recs)+4; records, count, seek, box, newline); fine = [(label, text)] the file
-    after every single write/seek call of the file object (finer than the model's operations),
-    labelled 'pre-box' or 'post-box'."""
+    (j = 0..len(recs)+3: records, count step, seek, box line written in one operation);
+    fine = [(label, text)] the file after every single write/seek call of the file object (finer
+    than the model's operations), labelled 'partial' (a later write call is still to come) or
+    'complete' (after the last write call)."""
     g = GroFile()(path, "w")
     proxy = SnapFile(g._file, path)
     g._file = proxy
@@ -317,18 +334,13 @@ def run_writer_snapshots(path, conf, recs):
     proxy._real.flush()
     ev = proxy.events[mark:]
     writes = [t for w, t in ev if w == "write"]
-    # undeclared: writes = [count, box, nl]; declared: [box, nl]
     declared = conf["natoms"] is not None
-    if declared:
-        after_count = ops[-1][1]
-        after_box, after_nl = writes[0], writes[1]
-    else:
-        after_count, after_box, after_nl = writes[0], writes[1], writes[2]
-    ops += [(n + 1, after_count), (n + 2, after_count), (n + 3, after_box), (n + 4, after_nl)]
-    fine = []
-    nbox = len(proxy.events) - 2          # index of the box write among all events
-    for k, (w, t) in enumerate(proxy.events):
-        fine.append(("pre-box" if k < nbox else ("post-box" if k == nbox else "complete"), t))
+    # undeclared: write calls of close = [count back-fill, ..., last]; declared: [..., last]
+    after_count = ops[-1][1] if declared else writes[0]
+    final = now()
+    ops += [(n + 1, after_count), (n + 2, after_count), (n + 3, final)]
+    last_write = max(k for k, (w, t) in enumerate(proxy.events) if w == "write")
+    fine = [("partial" if k < last_write else "complete", t) for k, (w, t) in enumerate(proxy.events)]
     proxy._real.close()
     return ops, fine
 
